@@ -5,6 +5,8 @@ deep embedding of engine P): enumerates the Pattern subclasses of isobar.pattern
   track      : a fourth fresh instance scheduled as the "note" of a Track whose notes outlast the stream (gate > 1);
                the timeline is ticked until the track has left Timeline.tracks (or the tick budget is used up).
 stdin {"enumerate": true} | {"cases": [{"src", "refn", "script": [[op, handle, arg?]...] | null, "track": {...} | null}]}.
+Script operations: next / nextn / for / all / len / reset / copy on a handle, and ["new", 0]: a further instance built from the same
+source (equal arguments) becomes the next handle.
 Observations are those of pat_impl: {"y": value} | "stop" | {"r": exception class name}.  Only API-level observables are
 read: return values, exception classes, device calls, Timeline.tracks."""
 import sys, os, json, signal, inspect
@@ -102,6 +104,8 @@ def run_op(handles, op):
         def f():
             handles.append(p.copy())
         return observe(f)
+    if k == "reset":
+        return observe(lambda: p.reset())
     raise ValueError(op)
 
 
@@ -117,6 +121,14 @@ def run_ops(src, ops):
     handles = [p]
     for op in ops:
         signal.setitimer(signal.ITIMER_REAL, OP_TIMEOUT)
+        if op[0] == "new":                       # another instance built from the same source (equal arguments)
+            q, o = build(src)
+            if q is None:
+                obs.append(o)
+                break
+            handles.append(q)
+            obs.append(o)
+            continue
         o = run_op(handles, op)
         if too_long(o):
             raise Timeout()
